@@ -510,14 +510,19 @@ class Model(object):
                     self.report("C10:test-pending-on-failed:%s" % o.type, "test() by actor %d at %.17g says the %s activity is still pending although a "
                                 "resource it uses failed at %.17g" % (a, ev.clk, o.type, o.doom["date"]))
                 return
-            # val=1
-            if sure and ev.clk != o.doom["date"]:
+            # val=1: the failure must at least be visible in the state of the activity
+            if sure and ev.clk != o.doom["date"] and kv.get("state") != "FAILED":
                 self.report("C10:test-masks-failure:%s" % o.type,
                             "a resource used by the %s activity of actor %d op %s failed at %.17g; test() at %.17g returns true without any exception and "
                             "the activity's state reads %s%s: the failure is never reported to this actor" % (
                                 o.type, a, b.get("args", ["?"])[0], o.doom["date"], ev.clk, kv.get("state"),
                                 (", the received payload is " + kv["payload"]) if "payload" in kv else ""))
-            self.complete_ok(a, k, kind, o, kv, ev)
+            if not (sure and kv.get("state") == "FAILED"):
+                self.complete_ok(a, k, kind, o, kv, ev)
+            else:
+                o.ended = True
+                self.checked += 1
+                self.count("checked.test_shows_failed_state")
             return
 
         if kind == "waitany":
@@ -551,7 +556,7 @@ class Model(object):
     # -- judgements --------------------------------------------------------------------------------------------------------
     def late(self, a, k, kind, e, ev):
         o = e["objs"][0]
-        self.report("C10:late-report:%s:%s" % (o.type, kind), "actor %d %s: %s; the failure was due at %.17g but %s() only returned at %.17g (%s)"
+        self.report("C10:late-report:%s:%s" % (self.tname(o), kind), "actor %d %s: %s; the failure was due at %.17g but %s() only returned at %.17g (%s)"
                     % (a, self.desc(o), e["why"], e["date"], kind, ev.clk, " ".join(ev.f[3:])))
 
     def desc(self, o):
@@ -589,22 +594,21 @@ class Model(object):
             for o in doomed:
                 o.ended = True
 
+    def tname(self, o):
+        return "comm-detached" if (o.type == "comm" and o.detached) else o.type
+
     def judge_ok(self, a, k, kind, o, ev, e):
         sure = o.doom is not None and o.doom["sure"] and not o.ambiguous
-        if e is not None:
-            if ev.clk != e["date"]:
-                self.late(a, k, kind, e, ev)
-            if sure and ev.clk == o.doom["date"]:
-                self.count("ties.completion_at_fault_date_accepted")
-                return
-            self.report("C10:success-on-failed-resource:%s:%s" % (o.type, kind), "actor %d %s: %s; yet %s() reports success at %.17g" % (
-                a, self.desc(o), e["why"], kind, ev.clk))
         if sure:
             if ev.clk == o.doom["date"]:
                 self.count("ties.completion_at_fault_date_accepted")
                 return
-            self.report("C10:success-on-failed-resource:%s:%s" % (o.type, kind), "%s used a resource that failed at %.17g while it was alive, yet %s() "
-                        "by actor %d reports success at %.17g" % (self.desc(o), o.doom["date"], kind, a, ev.clk))
+            self.report("C10:success-on-failed-resource:%s:%s" % (self.tname(o), kind), "%s used a resource that failed at %.17g while it was alive%s, yet %s() "
+                        "by actor %d reports success at %.17g" % (self.desc(o), o.doom["date"], " (%s)" % e["why"] if e else "", kind, a, ev.clk))
+        if e is not None:
+            # the demand was attached to another member of a wait_any set
+            if ev.clk != e["date"]:
+                self.late(a, k, kind, e, ev)
         if o.doom is None and self.fault_dates:
             self.count("observed.unaffected_activity_completed_after_a_fault")
 
@@ -629,7 +633,7 @@ class Model(object):
                 continue
             o = e["objs"][0]
             b = self.blocked.get(a, {"kind": "?"})
-            self.report("C10:never-reported:%s:%s" % (o.type, b["kind"]), "actor %d %s: %s; the failure was due at %.17g but %s() never returned (the actor was still "
+            self.report("C10:never-reported:%s:%s" % (self.tname(o), b["kind"]), "actor %d %s: %s; the failure was due at %.17g but %s() never returned (the actor was still "
                         "blocked when the simulation ended)" % (a, self.desc(o), e["why"], e["date"], b["kind"]))
         for a, b in sorted(self.blocked.items()):
             if self.alive[a] and b["kind"] == "join":
